@@ -202,8 +202,12 @@ def build(case):
     if case["err"] and kind in ("lineplot", "lineplot_grid", "scatter"):
         if "y" in case["err"]:
             data["ye"] = (tuple(dims), np.abs(values()) * 0.1)
+            if case["dseed"] % 2:
+                data["ye"][1][rng.random(shape) < 0.2] = np.nan     # an error that is unknown where the point itself is known
         if "x" in case["err"]:
             data["xe"] = (tuple(dims), np.abs(values()) * 0.1)
+            if case["dseed"] % 2:
+                data["xe"][1][rng.random(shape) < 0.2] = np.nan
     if case["xvar"] and kind in ("scatter", "lineplot"):
         xv = values()
         if case["nan"] != "none":
@@ -244,6 +248,9 @@ def build(case):
             cv = np.abs(cv) + 0.1
         elif case.get("zero_floor"):
             cv = cv - cv.min()
+        if case["dseed"] % 2 and not o.get("colormap_log"):
+            cv = np.array(cv, dtype=float)
+            cv[rng.random(shape) < 0.15] = np.nan          # a colour quantity that is unknown at some drawn points
         data["cv"] = (tuple(dims), cv)
     return xr.Dataset(data, coords=coords)
 
@@ -353,11 +360,13 @@ def judge_line_axes(ctx, ax, ds, case, o, xname, ynames, zvals, kind, labels, wa
             col = art.get_facecolors()
             if o.get("_c") and "cv" in ds:
                 arr = art.get_array()
-                gotc = sorted(zip(off[:, 0].tolist(), off[:, 1].tolist(), np.asarray(arr, dtype=float).tolist())) if arr is not None else None
-                wantc = sorted(zip(exp[0].tolist(), exp[1].tolist(), exp[-1].tolist()))
+                nn = lambda t: tuple("nan" if v != v else v for v in t)      # noqa: E731  (NaN-safe sorting / comparing)
+                gotc = sorted(map(nn, zip(off[:, 0].tolist(), off[:, 1].tolist(), np.ma.filled(np.ma.asarray(arr, dtype=float), np.nan).tolist())),
+                              key=repr) if arr is not None else None
+                wantc = sorted(map(nn, zip(exp[0].tolist(), exp[1].tolist(), exp[-1].tolist())), key=repr)
                 if gotc != wantc:
                     bad.append("series %d: colour values attached to the points are not the c variable at those points" % i)
-                elif arr is not None and len(arr):
+                elif arr is not None and len(arr) and np.isfinite(np.ma.filled(np.ma.asarray(arr, dtype=float), np.nan)).all():
                     # the colours really drawn: chosen colormap at the plot-wide normalised value
                     allc = np.asarray(ds_full_c, dtype=float)
                     allc = allc[np.isfinite(allc)]
@@ -387,6 +396,9 @@ def judge_line_axes(ctx, ax, ds, case, o, xname, ynames, zvals, kind, labels, wa
                             exp_segs.append(((xx - ee, yy), (xx + ee, yy)))
                         else:
                             exp_segs.append(((xx, yy - ee), (xx, yy + ee)))
+                # (a point whose error is unknown has no bar: segments with a NaN end are left out on both sides)
+                segs = [s for s in segs if len(s) == 2 and np.isfinite(np.asarray(s, dtype=float)).all()]
+                exp_segs = [s for s in exp_segs if np.isfinite(np.asarray(s, dtype=float)).all()]
                 gs = sorted(tuple(map(tuple, np.round(np.asarray(s, dtype=float), 9).tolist())) for s in segs)
                 es = sorted(tuple(map(tuple, np.round(np.asarray(s, dtype=float), 9).tolist())) for s in exp_segs)
                 if gs != es:
@@ -564,8 +576,11 @@ def run_case(ctx, case):
                 want_colors = expected_series_colors(o, zv)
         else:
             want_colors = None
-    except Exception:
+    except Exception as e:
+        # (an error in the harness's own colour model must not silently switch the colour comparison off)
         want_colors = None
+        ctx.count("expected_colour_model_errors")
+        ctx.inconclusive_reason("the expected-colour model raised %r for %s" % (e, sorted(o)))
 
     # ------------------------------------------------------------------ panels
     def data_axes(f):
